@@ -139,3 +139,26 @@ func HarnessC07Glob(L int, isRef bool) {
 		verifCheck(out[i].Line == line && out[i].Column == want, "glob-diagnostic-not-at-offending-character")
 	}
 }
+
+// HarnessC07If: an `if:` condition written without ${{ }} (plain or quoted
+// scalar) at a symbolic position: the diagnostic of the offending token is at
+// column + quoted + offset.
+func HarnessC07If() {
+	bads := []struct {
+		text   string
+		offset int
+	}{{"true && foo.bar", 8}, {"github.nope", 0}, {" ]] ", 1}, {"a b", 2}, {"1 == github.nope", 5}}
+	bad := bads[verifChoose("bad", len(bads))]
+	line, col := verifSymInt("line"), verifSymInt("col")
+	verifAssume(verifAnd(verifAnd(1 <= line, line < 1<<40), verifAnd(1 <= col, col < 1<<40)))
+	quoted := verifSymBool("quoted")
+	rule := NewRuleExpression(NewLocalActionsCache(nil, nil), NewLocalReusableWorkflowCache(nil, "/", nil))
+	rule.checkIfCondition(&String{Value: bad.text, Quoted: quoted, Pos: &Pos{line, col}}, "jobs.<job_id>.if")
+	errs := rule.Errs()
+	verifReach("checked")
+	verifCheck(len(errs) >= 1, "malformed-placeholder-not-reported-exactly-once")
+	want := verifIteInt(quoted, col+bad.offset+1, col+bad.offset)
+	if len(errs) >= 1 {
+		verifCheck(errs[0].Line == line && errs[0].Column == want, "diagnostic-column-is-not-the-offending-token")
+	}
+}
